@@ -484,7 +484,7 @@ func c20Coexist(a vh.Args, o *vh.Oracle, r *vh.Result, c *c20Case) error {
 				fail(i, "corr", "corr:C20/prune-tree", "tree after Prune differs from the model: "+d)
 			}
 		case "verify":
-			ans, err := o.Call("c16.verify", "lazy", lsB01(op.Unc), lsB01(op.Repair), lsHx([]byte(root)), tree, decompTable(pre))
+			ans, err := o.Call("c16.verify", "lazy", lsB01(op.Unc), lsB01(op.Repair), lsHx([]byte(root)), tree, decompTable(pre), lsB01(op.Skip))
 			if err != nil {
 				return err
 			}
@@ -597,6 +597,7 @@ func c20GenCoexist(rng *vh.Rand) *c20Case {
 			op.Keep = rng.Intn(1 << uint(k))
 		case "verify":
 			op.Repair = rng.Bool()
+			op.Skip = rng.Chance(1, 3)
 		}
 		c.Ops = append(c.Ops, op)
 	}
